@@ -215,7 +215,9 @@ def make_case(rng, method, n, order, complex_valued=False):
             if stationary and rng.random() < 0.5:
                 # a single difference quotient at a zero of the derivative: nothing but the step size can size the estimate
                 spec = dict(kind='scalar', value=float(10.0 ** rng.uniform(-5, -2.5)))
-            return dict(tree=tree, x=xs, shape=shape, method=method, n=n, order=order,
+            u = rng.random()
+            x_form = None if u < 0.8 else str(rng.choice(['list', 'tuple'] if shape else ['zero_d', 'np_scalar']))
+            return dict(tree=tree, x=xs, shape=shape, method=method, n=n, order=order, x_form=x_form,
                         step=spec, cplx=bool(complex_valued), stationary=bool(stationary),
                         int_x=bool(int_x))
     return None
@@ -320,6 +322,18 @@ def run_case(case, ctx, full_output=True):
         if same:
             x = xi
             ctx.count('integer_typed_x_cases')
+    form = case.get('x_form')
+    if form and not (case.get('int_x') and not isinstance(x, (float, np.ndarray))):
+        # the same point in another legal container: list / tuple (nested for matrices), 0-d array, numpy scalar
+        if form in ('list', 'tuple') and shape:
+            x = np.asarray(x).tolist()
+            if form == 'tuple':
+                x = tuple(tuple(r) if isinstance(r, list) else r for r in x)
+        elif form == 'zero_d' and not shape:
+            x = np.array(x)
+        elif form == 'np_scalar' and not shape:
+            x = np.asarray(x)[()]
+        ctx.count('x_given_as:' + form)
     _OBS.clear()
     res = dict(outcome='ok', elems=[], obs=_OBS, rec=rec, tree=tree, x=x)
     try:
